@@ -183,6 +183,10 @@ func TestCorr(t *testing.T) {
 			runBigSetHistory(t, run, false)
 			continue
 		}
+		if (i-nq)%8 == 3 {
+			runTwoChainHistory(t, run, false)
+			continue
+		}
 		runBatchHistory(t, run)
 	}
 	if err := run.Finish("Cons.Queue Skyway.Confirms Corr.C06", "C06.case", "C06.check"); err != nil {
